@@ -28,11 +28,11 @@ TYPE_NAMES = ['int', 'str', 'bytes', 'bytearray', 'list', 'tuple', 'dict', 'bool
 SORT_OF = {
     'Int': T.I, 'Bool': T.B, 'Bytes': S.sort, 'ByteArray': S.sort, 'ListInt': S.sort, 'ListByte': S.sort,
     'Str': S.sort, 'Latin1': S.sort, 'SeqInt': S.sort, 'IntSeq': S.sort, 'SeqBytes': T.SeqS.sort, 'SeqStr': T.SeqS.sort,
-    'Opaque': T.Obj, 'ListBytes': T.SeqS.sort, 'ListObj': T.SeqO.sort, 'SeqObj': T.SeqO.sort,
+    'Opaque': T.Obj, 'Value': T.Obj, 'ListBytes': T.SeqS.sort, 'ListObj': T.SeqO.sort, 'SeqObj': T.SeqO.sort,
 }
 KIND_OF = {'Bytes': 'bytes', 'ByteArray': 'bytearray', 'ListInt': 'list', 'ListByte': 'list', 'Str': 'str',
            'Latin1': 'str', 'SeqInt': 'list', 'IntSeq': 'list', 'SeqBytes': 'list', 'SeqStr': 'list', 'ListBytes': 'list',
-           'ListObj': 'list', 'SeqObj': 'list'}
+           'ListObj': 'list', 'SeqObj': 'list', 'TupleObj': 'tuple'}
 
 
 class FunctionReport:
@@ -371,6 +371,9 @@ class Context:
             return it.items
         return None
 
+    def comprehension_hook(self, I, node, it, frame):
+        return None
+
     def lazy_field(self, I, obj, cell, name):
         return None
 
@@ -567,6 +570,16 @@ class Context:
             return t
         if isinstance(v, VSeq) and v.th is S:
             return self.uf('box_str', S.sort, T.Obj)(v.t)
+        if isinstance(v, VSeq) and v.th is T.SeqO:
+            return self.uf('box_seqo', T.SeqO.sort, T.Obj)(v.t)
+        if isinstance(v, VClass):
+            t = z3.Const('class!%s' % v.info.name, T.Obj)
+            I.assume(z3.And(t != self.NONE_OBJ, self.obj_truthy(t)))
+            return t
+        if isinstance(v, VBool):
+            return self.uf('box_bool', T.B, T.Obj)(v.t)
+        if isinstance(v, VInt):
+            return self.uf('box_int', T.I, T.Obj)(v.t)
         raise Unsupported('cannot box %r into Obj' % (v,), node)
 
     def unbox(self, I, v, n):
@@ -697,6 +710,8 @@ class Context:
             return VBool(I.fresh(name, T.B))
         if n == 'NoneT':
             return NONE
+        if n == 'TupleObj':
+            return VSeq(I.fresh(name, T.SeqO.sort), 'tuple', T.SeqO)
         if n in ('Bytes', 'Str', 'Latin1', 'SeqInt', 'IntSeq', 'SeqBytes', 'SeqStr', 'SeqObj'):
             th = {'SeqBytes': T.SeqS, 'SeqStr': T.SeqS, 'SeqObj': T.SeqO}.get(n, S)
             t = I.fresh(name, th.sort)
@@ -714,8 +729,11 @@ class Context:
         if n == 'Opaque':
             label = ty.args[0] if ty.args else ''
             t = I.fresh(name, T.Obj)
-            I.assume(t != self.NONE_OBJ)
+            I.assume(z3.And(t != self.NONE_OBJ, self.obj_truthy(t)))    # an object without __bool__/__len__ is truthy
             return VOpaque(t, label)
+        if n == 'Value':
+            # a value of unknown type: only its truthiness can be observed
+            return VOpaque(I.fresh(name, T.Obj), ty.args[0] if ty.args else '')
         if n == 'Opt':
             inner = self.make_symbolic(I, ty.args[0], name)
             return VOpt(I.fresh(name + '_none', T.B), inner)
@@ -1052,6 +1070,42 @@ class Context:
                 return I.ev(node.args[2], frame)
             finally:
                 I.st.heap = saved
+        if fn == 'cls':
+            name = self.const_str(I, I.ev(node.args[0], frame))
+            ci = self.find_class(name)
+            if ci is None:
+                for m in list(self.repo.modules.values()):
+                    r = m.lookup(self.repo, name)
+                    if isinstance(r, ClassInfo):
+                        ci = r
+                        break
+            if ci is None:
+                raise Unsupported('cls(%s): class not found' % name, node)
+            return VClass(ci)
+        if fn == 'is_instance':
+            v = I.unwrap(I.ev(node.args[0], frame))
+            name = self.const_str(I, I.ev(node.args[1], frame))
+            if I.is_obj(v):
+                c = I.cell(v)
+                return VBool(c.cls is not None and any(k.name == name for k in c.cls.mro(self.repo)))
+            return VBool(False)
+        if fn == 'event_kwarg':
+            name = self.const_str(I, I.ev(node.args[0], frame))
+            k = VInt(I.as_int(I.ev(node.args[1], frame))).const()
+            kw = self.const_str(I, I.ev(node.args[2], frame))
+            evs = [e for e in I.st.trace if isinstance(e, Event) and e.name == name]
+            if k >= len(evs) or kw not in evs[k].kwargs:
+                self.qcount += 1
+                return VOpaque(z3.Const('missing-event!%d' % self.qcount, T.Obj), 'missing')
+            return evs[k].kwargs[kw]
+        if fn == 'event_self':
+            name = self.const_str(I, I.ev(node.args[0], frame))
+            k = VInt(I.as_int(I.ev(node.args[1], frame))).const()
+            evs = [e for e in I.st.trace if isinstance(e, Event) and e.name == name]
+            if k >= len(evs) or not getattr(evs[k], 'recv', None):
+                self.qcount += 1
+                return VOpaque(z3.Const('missing-event!%d' % self.qcount, T.Obj), 'missing')
+            return evs[k].recv[0]
         if fn == 'getter':
             name = self.const_str(I, I.ev(node.args[0], frame))
             d = self.registry.externs.get(name) or {}
@@ -1220,6 +1274,8 @@ class Context:
         R = self.registry
         if key in R.contracts:
             # the function under verification calling itself, or any other function under contract
+            if R.contracts[key].kw.get('inline') and not (self.current is not None and self.current.key == key):
+                return 'inline'     # verified on its own, but callers execute the real body (results with concrete structure)
             return 'contract'
         if key in R.opaques:
             return 'opaque'
